@@ -929,6 +929,8 @@ class Interp:
                         r = G.cons[k] = new_int(0, B[0], ("andc", a, B[0]))
                     lo = 0
                     mk = B[0]
+                    # every value of the operand fits in bit_length(A.hi) bits, so the result has no bit outside (2^bl - 1) & mask
+                    hi = min(hi, ((1 << A[1].bit_length()) - 1) & mk)
                     if mk > 0:
                         # mask = ones in bit positions [lowb, topb): if every value of the operand has the same bits above topb,
                         # the field below topb ranges over an interval and the masked value is that interval with its low bits cleared
@@ -1025,6 +1027,21 @@ class Interp:
                         r = G.cons[k] = new_int(0 if G.base[a][0] >= 0 else tr[0], max(G.base[a][1], 0) >> B[0], ("shr_c", a, B[0]))
                     st.set_iv(r, A[0] >> B[0], A[1] >> B[0])
                     return r
+                # x >> ((x >> (bits-1)) + c): the shift is c+1 exactly when the top bit of x is set
+                db = G.df.get(b)
+                c0, ub = 0, b
+                if db and db[0] == "addc":
+                    ub, c0 = db[1], db[2]
+                du = G.df.get(ub)
+                if du and du[0] == "shr_c" and du[1] == a and du[2] == bits - 1 and c0 >= 0 and c0 + 1 < bits and not ty["signed"]:
+                    top = 1 << (bits - 1)
+                    cands = []
+                    if A[0] < top:
+                        cands.append((A[0] >> c0, min(A[1], top - 1) >> c0))
+                    if A[1] >= top:
+                        cands.append((max(A[0], top) >> (c0 + 1), A[1] >> (c0 + 1)))
+                    if cands:
+                        return new_int(min(x[0] for x in cands), max(x[1] for x in cands))
                 return new_int(A[0] >> B[1], A[1] >> B[0])
             if B[0] >= 0 and B[1] < bits:
                 # arithmetic shift = floor division by a power of two (monotone in the operand)
